@@ -187,6 +187,9 @@ class Unsigned(BitVector):
             rhs = -(rhs % 2**self.width)
 
         else:
+            if isinstance(rhs, Unsigned) and rhs.width < self.width:
+                # extend before negating (the two's complement of the narrow value is not the same number)
+                rhs = rhs.resize(self.width)
             rhs = -rhs
 
         return self.add(rhs, target_width)
